@@ -553,6 +553,11 @@ func callSSA(i *interpreter, caller *frame, callpos token.Pos, fn *ssa.Function,
 	}
 	i.depthCalls++
 	if i.depthCalls > 4000 {
+		if i.ps != nil && i.ps.termLimit > 0 {
+			// under a termination bound unbounded recursion is the violation
+			i.ps.termLimit = 0
+			panic(pathAbort{kind: abortAssertFail, msg: i.ps.termMsg})
+		}
 		panic(pathAbort{kind: abortBudget, msg: "call depth exceeds 4000"})
 	}
 	saved := i.top
